@@ -2,6 +2,7 @@
 // step, checks legality (an illegal plan is INVALID, never a violation), and
 // evaluates the oracles.
 #include "exec.hpp"
+#include "emitted.hpp"
 
 #include <algorithm>
 #include <csignal>
@@ -119,6 +120,15 @@ struct PolState {
     std::size_t last_allocs = 0; // allocations of the last completed update
     std::uint64_t checksum = 0; // published data at this policy's last event
     bool checksum_valid = false;
+    // C13: the "file" written by the last encoding update, the registrations
+    // it was made from (catalog order) and what calls did right after it
+    std::string encoded;
+    Registry enc_reg;
+    int enc_epoch = -1;
+    std::map<std::string, std::string> enc_table;
+    bool enc_table_valid = false;
+    bool fresh_process = true; // nothing was updated or decoded yet
+    bool decoded = false;      // tables come from decode_dispatch_data
 };
 
 struct Exec {
@@ -132,6 +142,15 @@ struct Exec {
     Hash sig;
     int cur_event = -1;
     bool stop = false;
+    // Differential attribution for the two properties about generated
+    // artefacts. While a policy whose tables come from decode_dispatch_data
+    // (C13) or whose calls read generated static offsets (C12) is being
+    // checked, a violation of another property's oracle counts for that
+    // property unless the same kind of violation was already seen in the
+    // baseline (the same policy before decoding, the twin policy without
+    // static offsets): what update itself gets wrong is not the generator's.
+    std::string derived_prop, derived_tag;
+    std::set<std::string> baseline_keys;
 
     Exec(const Plan& p, const ExecOpts& o) : plan(p), opts(o), w(p.w) {
     }
@@ -161,6 +180,20 @@ struct Exec {
         v.detail = detail;
         v.event = cur_event;
         v.diag = std::move(diag);
+        if (!derived_prop.empty() && prop != derived_prop) {
+            if (!baseline_keys.count(v.key())) {
+                v.oracle = derived_tag + "-" + prop + "-" + oracle;
+                v.prop = derived_prop;
+            }
+        } else if (derived_prop.empty())
+            baseline_keys.insert(v.key());
+        if (opts.tolerate.count(v.key())) {
+            log("KNOWN " + v.key() + " " + detail);
+            if (res.tolerated.size() < 8)
+                res.tolerated.push_back(std::move(v));
+            return;
+        }
+        const std::string prop_final = v.prop;
         log("VIOLATION " + v.key() + " " + detail);
         res.v.push_back(std::move(v));
         // going on after these could crash the worker: stop whatever the focus
@@ -174,7 +207,7 @@ struct Exec {
         if (res.status == RS_OK)
             res.status = RS_VIOLATION;
         if (opts.stop_at_first &&
-            (opts.focus.empty() || prop == opts.focus || fatal ||
+            (opts.focus.empty() || prop_final == opts.focus || fatal ||
              res.v.size() >= 20))
             stop = true;
     }
@@ -583,7 +616,9 @@ struct Exec {
     struct MethodView {
         int rec;
         int slot;
-        SlotInfo si;
+        SlotInfo si; // slots_strides: what the call path of the policy reads
+        std::size_t installed[16] = {}; // what update (or decode) installed
+        bool offsets_differ = false; // static offsets != installed ones
         std::vector<int> defs; // def records, registration order
     };
 
@@ -594,6 +629,19 @@ struct Exec {
             m.rec = mi;
             m.slot = plan.recs[mi].slot;
             s.ops->slot_info(m.slot, m.si);
+            for (int i = 0; i < 16; ++i)
+                m.installed[i] = m.si.slots_strides[i];
+            if (m.si.has_static) {
+                // static_offsets<method>: slots[0..k), strides[0..k-1)
+                int k = m.si.arity;
+                for (int i = 0; i < k; ++i)
+                    m.si.slots_strides[i] = m.si.st_slots[i];
+                for (int i = 1; i < k; ++i)
+                    m.si.slots_strides[k + i - 1] = m.si.st_strides[i - 1];
+                for (int i = 0; i < 2 * k - 1; ++i)
+                    if (m.si.slots_strides[i] != m.installed[i])
+                        m.offsets_differ = true;
+            }
             auto it = r.defs.find(mi);
             if (it != r.defs.end())
                 m.defs = it->second;
@@ -650,6 +698,8 @@ struct Exec {
             std::map<std::uintptr_t, std::pair<int, int>> cells;
             for (auto& m : mv) {
                 auto& mr = plan.recs[m.rec];
+                if (m.offsets_differ)
+                    continue; // every call of it is rejected (C12)
                 for (int i = 0; i < m.si.arity; ++i) {
                     if (!L.le(c, mr.vp[i]))
                         continue;
@@ -924,6 +974,33 @@ struct Exec {
                     s.ops->next_cell(m.slot, plan.recs[di].body);
                 ++res.st.next_checked;
                 std::string gs = word_str(s, m, got);
+                if (s.decoded) {
+                    // decode_dispatch_data never writes next
+                    J d = base_diag(s, L);
+                    d.set("slot", m.slot);
+                    d.set("def", J::arr_of(plan.recs[di].vp));
+                    d.set("expected", res_str(r));
+                    d.set("got", got ? gs : std::string("null"));
+                    if (!got)
+                        violate(
+                            "C13", "decoded-next", "not-installed",
+                            "after decode_dispatch_data the next slot of "
+                            "definition (" + join(plan.recs[di].vp) +
+                                ") of slot " + std::to_string(m.slot) +
+                                " is null; after update it refers to " +
+                                res_str(r),
+                            d);
+                    else if (got != want)
+                        violate(
+                            "C13", "decoded-next", "wrong",
+                            "after decode_dispatch_data next of definition (" +
+                                join(plan.recs[di].vp) + ") is " + gs +
+                                ", expected " + res_str(r),
+                            d);
+                    if (stop)
+                        return;
+                    continue;
+                }
                 table["n" + std::to_string(m.slot) + ":" +
                       std::to_string(plan.recs[di].body)] = gs;
                 if (got != want) {
@@ -993,6 +1070,18 @@ struct Exec {
         d.set("expected", res_str(want));
         std::string where = "slot " + std::to_string(m.slot) + " (" +
             m.si.kinds + ") tuple (" + join(tuple) + ")";
+        if (out.err.alt == EA_STATIC_SLOT || out.err.alt == EA_STATIC_STRIDE) {
+            // only reached when the static offsets equal the installed ones
+            d.set("err_alt", out.err.alt);
+            return violate(
+                "C12", "accept", "correct-offsets-rejected",
+                "the consistency check reported a static " +
+                    std::string(out.err.alt == EA_STATIC_SLOT ? "slot"
+                                                              : "stride") +
+                    " error although the static offsets are the installed "
+                    "ones: " + where,
+                d);
+        }
         if (resolve_only) {
             if (out.err.alt != EA_NONE || !out.returned) {
                 d.set("err_alt", out.err.alt);
@@ -1187,6 +1276,25 @@ struct Exec {
         auto mv = method_views(s, s.updated);
         auto& table = res.tables[s.name];
         table.clear();
+        struct Ctx {
+            Exec& x;
+            ~Ctx() {
+                x.derived_prop.clear();
+                x.derived_tag.clear();
+            }
+        } ctx{*this};
+        if (s.decoded) {
+            derived_prop = "C13";
+            derived_tag = "decoded";
+        } else if (ops.caps.static_offsets) {
+            derived_prop = "C12";
+            derived_tag = "static";
+            for (auto& m : mv)
+                if (m.offsets_differ && !ops.caps.checked)
+                    return invalid(
+                        "check: static offsets differ from the installed ones "
+                        "under an unchecked policy");
+        }
 
         check_structure(s, L, sn, mv);
         if (stop)
@@ -1200,6 +1308,12 @@ struct Exec {
 
         std::uint64_t tuples_here = 0;
         for (auto& m : mv) {
+            if (m.offsets_differ) {
+                check_rejected(s, L, m, e);
+                if (stop)
+                    return;
+                continue;
+            }
             // sampling depends on the method only, not on catalog order
             Rng rng(mix3(e.sample_seed, 0xC4EC, (std::uint64_t)m.slot));
             // aliases and routes draw from their own stream, so that the
@@ -1318,7 +1432,7 @@ struct Exec {
                 verify_call(s, L, m, tuple, args, want, true, false, "C01");
                 if (stop)
                     return;
-                if (e.call_next && want.kind == RES_DEF &&
+                if (e.call_next && want.kind == RES_DEF && !s.decoded &&
                     !plan.recs[want.def].nonext &&
                     next_done.insert(want.def).second) {
                     verify_call(s, L, m, tuple, args, want, false, true, "C01");
@@ -1338,6 +1452,346 @@ struct Exec {
             th.str(kv.second);
         }
         log("table " + std::to_string(th.h));
+        if (s.decoded && s.enc_table_valid) {
+            // C13: "makes every call behave exactly as after update"
+            std::string what;
+            if (first_diff_tables(s.enc_table, table, what)) {
+                J d = base_diag(s, L);
+                d.set("what", what);
+                derived_prop.clear();
+                violate(
+                    "C13", "decode-diff", "outcome-differs",
+                    "after decode_dispatch_data a call resolves differently "
+                    "than after the update that was encoded: " + what,
+                    d);
+            }
+        } else if (!s.decoded && s.enc_epoch == s.epoch && !s.encoded.empty()) {
+            s.enc_table = table;
+            s.enc_table_valid = true;
+        }
+        note_own_event(s);
+    }
+
+    static bool first_diff_tables(
+        const std::map<std::string, std::string>& a,
+        const std::map<std::string, std::string>& b, std::string& what) {
+        for (auto& kv : a) {
+            if (kv.first[0] == 'n')
+                continue; // next cells: decoded-next oracle
+            auto it = b.find(kv.first);
+            if (it == b.end()) {
+                what = kv.first + ": " + kv.second + " vs (absent)";
+                return true;
+            }
+            if (it->second != kv.second) {
+                what = kv.first + ": " + kv.second + " vs " + it->second;
+                return true;
+            }
+        }
+        return false;
+    }
+
+    // C12: "the debug-build consistency check ... rejects any other": every
+    // call of a method whose static offsets differ from the installed ones is
+    // reported (slot or stride error) before any definition runs
+    void check_rejected(
+        PolState& s, const Lattice& L, const MethodView& m, const Event& e) {
+        auto& ops = *s.ops;
+        auto& mr = plan.recs[m.rec];
+        int k = m.si.arity;
+        Rng rng(mix3(e.sample_seed, 0x0FF5, (std::uint64_t)m.slot));
+        std::vector<std::vector<int>> cand(k);
+        for (int i = 0; i < k; ++i) {
+            for (int c = 0; c < L.n; ++c)
+                if (L.reg[c] && !L.abstract[c] && L.le(c, mr.vp[i]))
+                    cand[i].push_back(c);
+            if (cand[i].empty())
+                return;
+        }
+        std::string kinds = m.si.kinds;
+        for (int t = 0; t < 6 && !stop; ++t) {
+            std::vector<int> tuple(k);
+            std::vector<CallArg> args(k);
+            int vi = 0;
+            for (char kc : kinds) {
+                if (kc == 'I')
+                    continue;
+                tuple[vi] = cand[vi][rng.below(cand[vi].size())];
+                args[vi].cls = tuple[vi];
+                args[vi].alias = 0;
+                args[vi].route = pick_route(rng, kc, e.routes, 0);
+                ++vi;
+            }
+            bool resolve_only = (t % 3) == 2;
+            CallOut out = ops.call(
+                m.slot, args.data(), (int)args.size(), resolve_only, false, -1);
+            ++res.st.calls;
+            ++res.st.rejects_checked;
+            ++res.st.faults["static_offsets_differ_call"];
+            J d = call_diag(s, L, m, tuple);
+            d.set("err_alt", out.err.alt);
+            d.set("handler_calls", out.err.handler_calls);
+            d.set("resolve_only", resolve_only);
+            std::string where = "slot " + std::to_string(m.slot) + " (" +
+                kinds + ") tuple (" + join(tuple) + ")";
+            if (out.nframes != 0)
+                return violate(
+                    "C12", "reject", "definition-ran",
+                    "static offsets differ from the installed ones, yet a "
+                    "definition ran: " + where, d);
+            if (out.returned ||
+                (out.err.alt != EA_STATIC_SLOT &&
+                 out.err.alt != EA_STATIC_STRIDE))
+                return violate(
+                    "C12", "reject", "not-rejected",
+                    "static offsets differ from the installed ones and the "
+                    "checked policy did not report it: " + where, d);
+            if (out.err.handler_calls != 1)
+                return violate(
+                    "C12", "reject", "handler-count",
+                    "static offset error reported " +
+                        std::to_string(out.err.handler_calls) + " times: " +
+                        where, d);
+        }
+        log("rejected slot " + std::to_string(m.slot));
+    }
+
+    // ---------------------------------------------------------------------
+    // C12: the generator's output "compiled in"
+
+    void do_offsets(const Event& e) {
+        if (e.pol < 0 || e.pol >= (int)ps.size())
+            return invalid("offsets: bad policy");
+        auto& s = ps[e.pol];
+        auto& ops = *s.ops;
+        if (!ops.caps.static_offsets)
+            return invalid("offsets: policy without static offsets");
+        if (!s.clean || s.aborted || s.live != s.updated)
+            return invalid("offsets: policy not clean");
+        Lattice L = make_lattice(plan, s.updated);
+        if (!e.stale) {
+            auto mv = method_views(s, s.updated);
+            std::map<int, const MethodView*> by_slot;
+            for (auto& m : mv)
+                by_slot[m.slot] = &m;
+            std::vector<std::string> texts;
+            if (e.per_method)
+                for (auto& m : mv)
+                    texts.push_back(ops.gen_offsets(m.slot));
+            else
+                texts.push_back(ops.gen_offsets(-1));
+            std::set<int> seen;
+            for (auto& text : texts) {
+                std::vector<EmittedOffsets> eo;
+                std::string why = parse_offsets(text, eo);
+                J d = base_diag(s, L);
+                if (!why.empty()) {
+                    d.set("why", why);
+                    d.set("text", text.substr(0, 400));
+                    return violate(
+                        "C12", "offsets-text", "malformed",
+                        "write_static_offsets wrote text that is not a "
+                        "static_offsets specialisation: " + why, d);
+                }
+                if (e.per_method && eo.size() != 1) {
+                    d.set("count", (int)eo.size());
+                    return violate(
+                        "C12", "offsets-text", "count",
+                        "write_static_offsets<Method> wrote " +
+                            std::to_string(eo.size()) + " specialisations", d);
+                }
+                for (auto& o : eo) {
+                    // which method: ...method<ys::key<N>, ..., ys::pol::P>
+                    std::size_t kp = o.method.find("ys::key<");
+                    int slot = kp == std::string::npos
+                        ? -1 : atoi(o.method.c_str() + kp + 8);
+                    std::string tail = "ys::pol::" + s.name + ">";
+                    bool named = o.method.size() >= tail.size() &&
+                        o.method.compare(o.method.size() - tail.size(),
+                                         tail.size(), tail) == 0;
+                    d.set("method", o.method);
+                    if (!by_slot.count(slot) || !named ||
+                        !seen.insert(slot).second)
+                        return violate(
+                            "C12", "offsets-text", "wrong-method",
+                            "write_static_offsets names a method that is not "
+                            "a registered method of the policy, or names one "
+                            "twice: " + o.method, d);
+                    auto& m = *by_slot[slot];
+                    int k = m.si.arity;
+                    d.set("slot", slot);
+                    d.set("kinds", m.si.kinds);
+                    d.set("arity", k);
+                    std::vector<int> gs(o.slots.begin(), o.slots.end()),
+                        gt(o.strides.begin(), o.strides.end()), is, it;
+                    for (int i = 0; i < k; ++i)
+                        is.push_back((int)m.installed[i]);
+                    for (int i = 1; i < k; ++i)
+                        it.push_back((int)m.installed[k + i - 1]);
+                    d.set("generated_slots", J::arr_of(gs));
+                    d.set("generated_strides", J::arr_of(gt));
+                    d.set("installed_slots", J::arr_of(is));
+                    d.set("installed_strides", J::arr_of(it));
+                    if (gs != is || gt != it)
+                        return violate(
+                            "C12", "offsets-text", "differ-from-installed",
+                            "generated offsets of slot " +
+                                std::to_string(slot) + " (" + m.si.kinds +
+                                "): slots {" + join(gs) + "} strides {" +
+                                join(gt) + "}; update installed slots {" +
+                                join(is) + "} strides {" + join(it) + "}",
+                            d);
+                    ops.set_offsets(slot, o.slots, o.strides);
+                }
+            }
+            if (seen.size() != mv.size()) {
+                J d = base_diag(s, L);
+                return violate(
+                    "C12", "offsets-text", "missing-method",
+                    "write_static_offsets wrote offsets for " +
+                        std::to_string(seen.size()) + " of " +
+                        std::to_string(mv.size()) + " methods", d);
+            }
+            ++res.st.faults[e.per_method ? "offsets_generated_per_method"
+                                         : "offsets_generated_per_policy"];
+        } else {
+            ++res.st.faults["offsets_stale_header"];
+        }
+        if (e.meth >= 0) {
+            // fault: the header was generated from other registrations
+            if (e.meth >= (int)plan.recs.size() ||
+                plan.recs[e.meth].kind != RK_METHOD ||
+                plan.recs[e.meth].pol != e.pol || !s.updated.has_method(e.meth))
+                return invalid("offsets: bad method to perturb");
+            if (!ops.caps.checked)
+                return invalid("offsets: perturbation under an unchecked policy");
+            SlotInfo si;
+            ops.slot_info(plan.recs[e.meth].slot, si);
+            int k = si.arity;
+            int n = 2 * k - 1;
+            int pos = ((e.ppos % n) + n) % n;
+            if (e.pdelta == 0)
+                return invalid("offsets: null perturbation");
+            std::vector<std::size_t> sl(si.st_slots, si.st_slots + k),
+                st(si.st_strides, si.st_strides + (k - 1));
+            if (pos < k)
+                sl[pos] = (std::size_t)((long long)sl[pos] + e.pdelta);
+            else
+                st[pos - k] = (std::size_t)((long long)st[pos - k] + e.pdelta);
+            ops.set_offsets(plan.recs[e.meth].slot, sl, st);
+            ++res.st.faults["offsets_perturbed"];
+        }
+        log("offsets " + s.name + " stale=" + std::to_string(e.stale) +
+            " meth=" + std::to_string(e.meth));
+        note_own_event(s);
+    }
+
+    // ---------------------------------------------------------------------
+    // C13: the process ends, another one starts; decode
+
+    void do_restart(const Event& e) {
+        if (e.pol < 0 || e.pol >= (int)ps.size())
+            return invalid("restart: bad policy");
+        auto& s = ps[e.pol];
+        s.ops->reset();
+        std::string why = s.ops->pristine();
+        if (!why.empty()) {
+            res.poisoned = true;
+            J d = J::obj();
+            d.set("policy", s.name);
+            d.set("what", why);
+            violate(
+                "C18", "catalog", "residue",
+                "after every registration object of policy " + s.name +
+                    " was destroyed: " + why, d);
+            stop = true;
+            return;
+        }
+        for (std::size_t ri = 0; ri < plan.recs.size(); ++ri)
+            if (plan.recs[ri].pol == e.pol)
+                loaded[ri] = 0;
+        s.live = Registry();
+        s.updated = Registry();
+        s.clean = false;
+        s.aborted = false;
+        s.decoded = false;
+        s.fresh_process = true;
+        for (auto& h : s.held)
+            h = HeldVp();
+        s.ops->set_handler(HM_THROW);
+        s.handler_mode = HM_THROW;
+        ++s.epoch;
+        log("restart " + s.name);
+        note_own_event(s);
+    }
+
+    void do_decode(const Event& e) {
+        if (e.pol < 0 || e.pol >= (int)ps.size())
+            return invalid("decode: bad policy");
+        auto& s = ps[e.pol];
+        auto& ops = *s.ops;
+        if (s.encoded.empty())
+            return invalid("decode: nothing was encoded");
+        if (!s.fresh_process)
+            return invalid("decode: not a process that never updated");
+        if (s.live != s.enc_reg)
+            return invalid("decode: not the registrations that were encoded");
+        if (s.handler_mode != HM_THROW)
+            return invalid("decode: handler must throw");
+        if (!ops.caps.hash && e.hash_budget)
+            return invalid("decode: hash fault on a policy without hash");
+        if (!ids_unique())
+            return invalid("decode: ids not unique");
+        Lattice L = make_lattice(plan, s.live);
+        s.fresh_process = false;
+        DecodeOut out = ops.decode(s.encoded, e);
+        J d = base_diag(s, L);
+        d.set("headroom", J((unsigned long long)out.headroom));
+        d.set("slots", J((unsigned long long)out.nslots));
+        d.set("encoded_vtbls", J((unsigned long long)out.nvtbls));
+        d.set("decoded_vtbls", J((unsigned long long)out.ndecoded));
+        d.set("dtbls", J((unsigned long long)out.ndtbls));
+        std::ostringstream ls;
+        ls << "decode " << s.name << " parsed=" << out.parsed
+           << " completed=" << out.completed << " err=" << out.err.alt;
+        log(ls.str());
+        if (!out.parsed) {
+            d.set("why", out.parse_why);
+            return violate(
+                "C13", "emitted-text", "malformed",
+                "encode_dispatch_data wrote text that is not the documented "
+                "data structure: " + out.parse_why, d);
+        }
+        if (!out.completed) {
+            s.aborted = true;
+            s.clean = false;
+            if (out.err.alt == EA_HASH_SEARCH && ops.caps.hash) {
+                ++res.st.hash_failures;
+                if (e.hash_budget) {
+                    ++res.st.faults["hash_budget_exhausted_in_decode"];
+                    note_own_event(s);
+                    return;
+                }
+                // the update that was encoded found hash factors for the
+                // same ids with the same (shipped) seed and budget
+                d.set("attempts", J((unsigned long long)out.err.attempts));
+                return violate(
+                    "C13", "decode", "hash-search-failed",
+                    "decode_dispatch_data reported a hash search error for "
+                    "the ids the encoded update had hashed", d);
+            }
+            d.set("err_alt", out.err.alt);
+            return violate(
+                "C13", "decode", "failed",
+                "decode_dispatch_data raised error alternative " +
+                    std::to_string(out.err.alt), d);
+        }
+        ++res.st.faults["decoded"];
+        s.updated = s.live;
+        s.clean = true;
+        s.aborted = false;
+        s.decoded = true;
+        ++s.epoch;
         note_own_event(s);
     }
 
@@ -1453,6 +1907,9 @@ struct Exec {
             return;
         }
         ++res.st.updates;
+        if (e.encode && !ops.caps.stdrtti)
+            return invalid("update: the generator needs std_rtti");
+        s.fresh_process = false;
         std::uint64_t attempts_before = g.probes[PROBE_HASH_ATTEMPT];
         UpdateOut uo = ops.update(e);
         std::uint64_t attempts = g.probes[PROBE_HASH_ATTEMPT] -
@@ -1557,7 +2014,15 @@ struct Exec {
         s.updated = s.live;
         s.clean = true;
         s.aborted = false;
+        s.decoded = false;
         ++s.epoch;
+        if (e.encode) {
+            s.encoded = uo.encoded;
+            s.enc_reg = s.live;
+            s.enc_epoch = s.epoch;
+            s.enc_table_valid = false;
+            ++res.st.faults["encoded"];
+        }
         {
             Lattice LU = make_lattice(plan, s.updated);
             signature_of(s, LU);
@@ -2207,6 +2672,15 @@ struct Exec {
             case OP_VP_DROP:
                 do_vp_drop(e);
                 break;
+            case OP_OFFSETS:
+                do_offsets(e);
+                break;
+            case OP_RESTART:
+                do_restart(e);
+                break;
+            case OP_DECODE:
+                do_decode(e);
+                break;
             default:
                 invalid("bad op");
             }
@@ -2403,7 +2877,8 @@ Plan restrict_to_policy(const Plan& p, int keep) {
             if (e.pol != keep)
                 continue;
             e.pol = 0;
-            if (e.op == OP_CALL || e.op == OP_VP_USE)
+            if (e.op == OP_CALL || e.op == OP_VP_USE ||
+                (e.op == OP_OFFSETS && e.meth >= 0))
                 e.meth = remap[e.meth];
         }
         q.events.push_back(e);
@@ -2550,7 +3025,8 @@ RunResult run_plan(const Plan& plan, const ExecOpts& opts) {
             std::string what;
             if (first_diff(*ref, kv.second, what))
                 diff_violation(
-                    base, "C10", "flavour-diff", "outcome-differs",
+                    base, plan.prop == "C12" ? "C12" : "C10", "flavour-diff",
+                    "outcome-differs",
                     "policies " + refname + " and " + kv.first +
                         " dispatch differently: " + what,
                     kv.first);
